@@ -60,7 +60,11 @@ Base == <<
   << S1("select"), S1("name"), S1("from"), S1("."), S1("where"), <<"substr(name,1,2)", "substring(name,1,2)">>, <<"=", "eq">>, S1("'a.'"), S1("and"), S1("is_file"), <<"=", "==">>, S1("true"),
      S1("order"), S1("by"), S1("name") >>,
   << <<"select", "">>, S1("name"), S1(","), S1("size"), <<"depth", "maxdepth">>, S1("1"), S1("where"), S1("size"), S1(">"), S1("0") >>,
-  << S1("select"), S1("name"), S1("from"), S1("."), S1("where"), S1("not"), S1("is_dir"), S1("order"), S1("by"), S1("size"), S1("desc"), S1(","), S1("name"), S1("limit"), S1("4"), S1("into"), S1("json") >>
+  << S1("select"), S1("name"), S1("from"), S1("."), S1("where"), S1("not"), S1("is_dir"), S1("order"), S1("by"), S1("size"), S1("desc"), S1(","), S1("name"), S1("limit"), S1("4"), S1("into"), S1("json") >>,
+  \* 31: two unquoted roots separated by comma + blank, as README writes them (`from /home/user/oldstuff, /home/user/newstuff where ..`):
+  \*     split at whitespace the first root's shell word ends with the comma
+  << <<"select", "">>, S1("path"), S1("from"), S1("sub,"), S1("sub/deep"), S1("where"), S1("name"), <<"=", "eq">>, S1("'*.txt'") >>,
+  << S1("select"), S1("name"), S1("from"), S1("sub"), <<"depth", "maxdepth">>, S1("1,"), S1("sub/deep"), <<"", "bfs">> >>
 >>
 
 VARIABLES q, slot, alt, casing, split, phase
